@@ -153,10 +153,14 @@ pub enum Step {
     Reconnect { elapsed: u64, connect: ConnectSpec, auths: Vec<AuthSpec> },
     /// Lets the context task finish (the `Context` is dropped at its end).
     End,
-    Op { handle: usize, spec: OpSpec },
+    /// `id` is the operation's identity in this scenario (also embedded as marker in its
+    /// topic / first filter where the request has one); it survives step removal.
+    Op { id: usize, handle: usize, spec: OpSpec },
     Poll(TaskRef),
     /// Poll the `pick mod n`-th woken task (ascending task order).
     RunOne { pick: usize },
+    /// Poll the `pick mod n`-th live task whose waker has NOT fired (a spurious poll).
+    Spurious { pick: usize },
     /// Poll woken tasks, order drawn from the recorded `seed`, until none is woken.
     Settle { seed: u64 },
     Broker { pkt: BrokerPkt, chunks: Chunks, hold: bool },
@@ -185,6 +189,7 @@ impl Step {
             Step::Op { .. } => "Op",
             Step::Poll(_) => "Poll",
             Step::RunOne { .. } => "RunOne",
+            Step::Spurious { .. } => "Spurious",
             Step::Settle { .. } => "Settle",
             Step::Broker { .. } => "Broker",
             Step::Deliver { .. } => "Deliver",
